@@ -70,7 +70,7 @@ pub fn install_panic_hook() {
             .location()
             .map(|l| format!("{}:{}", l.file(), l.line()))
             .unwrap_or_default();
-        if !QUIET_PANICS.load(Ordering::Relaxed) {
+        if !QUIET_PANICS.load(Ordering::Relaxed) || std::env::var("RAINVERIF_PANICS").is_ok() {
             eprintln!("panic on {}: {} at {}", thread, message, location);
         }
         PANICS.lock().push(PanicRecord {
